@@ -469,8 +469,13 @@ def fix_unused_and_missing_imports(
             imp_to_add = imports[0]
             if imp_to_add in added_imports:
                 continue
-            transformer.add_import(imp_to_add, first_use[import_as])
             added_imports.add(imp_to_add)
+            try:
+                transformer.add_import(imp_to_add, first_use[import_as])
+            except ImportAlreadyExistsError:
+                # The import is already there, e.g. the name was deleted
+                # ('del x') after having been imported.
+                continue
             logger.info("%s: added %r", filename,
                         imp_to_add.pretty_print().strip())
 
